@@ -41,6 +41,23 @@ type typedPkg struct {
 	Ops      []string
 	Webhooks map[string]string // webhook operation -> webhook name
 	WithURL  any               // func(context.Context, *url.URL) context.Context: the per-call override of the server URL, if any
+	Label    any               // func(ctx, key, val string, pause func()) string: adds a label through the package's Labeler, returns what it holds
+}
+
+// typedLabel is the Label function of the package the running scenario uses (nil: the package has no Labeler).
+var typedLabel func(ctx context.Context, key, val string, pause func()) string
+
+// useLabeler: what an application does with the Labeler in a handler of its own: it adds a label that names the
+// request, does something else, and reads the labels back. They must be its own.
+func useLabeler(ctx context.Context, si *srvInfo, where string) {
+	if typedLabel == nil || si == nil || si.Call == nil || si.Call.Rec == nil {
+		return
+	}
+	val := fmt.Sprintf("%s-t%d-o%d-d%d", where, si.Call.Rec.Task, si.Call.Rec.Op, si.Idx)
+	got := typedLabel(ctx, "sim.request", val, func() { si.St.Yield() })
+	if !strings.Contains(got, val) || strings.Count(got, "sim.request") != 1 {
+		si.Side.LabelsForeign = "added sim.request=" + val + ", the Labeler then held " + got
+	}
 }
 
 // typedClients is what a typed scenario calls: the client, and the webhook client if the package has one.
@@ -1235,6 +1252,9 @@ func typedHandler(impls map[string][]reflect.Type, shared bool) (func(ctx contex
 		si.Side.ServerSaw = op
 		ts.Reached, ts.Op = true, op
 		si.St.MaybeYield()
+		if si.Call.Rec.Call.V%3 == 0 {
+			useLabeler(ctx, si, "h")
+		}
 		for _, a := range args {
 			ts.recv = append(ts.recv, snap(reflect.ValueOf(a), true, 0))
 		}
@@ -1338,6 +1358,7 @@ func customNotFound(w http.ResponseWriter, r *http.Request) {
 	if si, _ := r.Context().Value(srvKey{}).(*srvInfo); si != nil {
 		si.Side.CustomNotFound++
 		si.St.Yield()
+		useLabeler(r.Context(), si, "nf")
 	}
 	w.Header().Set("X-Sim-Custom", "not-found")
 	w.WriteHeader(http.StatusNotFound)
@@ -1348,6 +1369,7 @@ func customMethodNotAllowed(w http.ResponseWriter, r *http.Request, allowed stri
 	if si, _ := r.Context().Value(srvKey{}).(*srvInfo); si != nil {
 		si.Side.CustomNotAllow++
 		si.St.Yield()
+		useLabeler(r.Context(), si, "mna")
 	}
 	status := http.StatusMethodNotAllowed
 	if r.Method == http.MethodOptions {
